@@ -5,8 +5,11 @@ PROP = {'level': 'proof',
           'front/back history of any length, the model of RangeIter/RangeInclusiveIter (increment/decrement '
           'flags, the (MAX, MIN) exhausted encoding) never panics and answers exactly like the std deque '
           'over the values a..b / a..=b; the same for char (scalar values, ranges crossing the surrogate '
-          'gap); RangeFromIter yields a, a+1, ... while below MAX; the macro loop (next until None) collects '
-          'exactly these values (18 theorems, by one-step facts + the generic deque refinement, induction '
+          'gap); RangeFromIter yields a, a+1, ... while below MAX, then (debug assertions on, like std with '
+          'overflow checks) panics on the step that would have to go beyond MAX, and never ends - for any '
+          'number of steps and through take/zip/nth/find loops (take(k) with k = MAX - a excepted: the '
+          'emitted loop pulls k+1 items); the macro loop (next until None) collects '
+          'exactly these values (28 theorems, by one-step facts + the generic deque refinement, induction '
           'over the history). The model is tied to the code by a differential run that is complete for all '
           '65 536 bound pairs of u8 and of i8.',
  'sources': [('harness', 'c09'), ('programs', 'c09_cc')],
@@ -21,15 +24,22 @@ PROP = {'level': 'proof',
          "the macro's rev() and with into_iter!().rev(), collect_const! const items (separate programs "
          'compiled against the konst rlib, vlib/progs/c09_cc.py) with 11-14 (quick) / 16-19 (thorough) fixed '
          'boundary bound pairs x 6 forms for each of the 13 types; a.. for k<=6 items from every '
-         'neighbourhood value (all u8/i8 values for k in {1,3,8}); plus a seeded random stream (600/6000 per '
+         'neighbourhood value (all u8/i8 values for k in {1,3,8}); a.. from each of MAX-4..=MAX (thorough: '
+         'MAX-7..=MAX) of every type and from both sides of the char surrogate gap, k = 0..=7 (thorough: 11) '
+         'items wanted, observed step by step (v:<x> / panic / end) through next, for_each!+break, take(k) by '
+         'value and by reference, zip on either side, eval! nth / next / find, and as collect_const!(.., '
+         'take(k)) const items (17 per type); plus a seeded random stream (600/6000 per '
          'type) of bounds anywhere in the type with random histories up to 48 steps.',
  'explanation': 'Theorems (Props/C09.lean) state model = std spec for every bound pair and every history; '
                 'the transcript ties the model to the real konst iterators (direct next/next_back and '
                 'through the iteration macros) and the spec to the real core::ops::{Range, RangeInclusive, '
-                "RangeFrom}. RangeFrom requests that would pull the type's MAX (std: documented overflow "
-                'region) are tagged out of scope.',
+                "RangeFrom}. RangeFrom driven to the type's MAX is compared step by step with std's "
+                'RangeFrom under catch_unwind in the same program (same build profile: values below MAX, then a '
+                'panic; `end` where std yields a value or panics is a violation); out of scope only: take(k) with '
+                'k = MAX - a (konst pulls a (k+1)-th item and panics where std stops) and the older '
+                'rg.rangefrom[.fe|.ev] prefix requests beyond MAX.',
  'assumptions': ['usize/isize are 64 bits wide',
                  'konst is built with debug assertions (debug_assert!(!overflowed) active), as in const '
-                 'evaluation of a debug build; a..: only the items below MAX are in scope (std documents '
-                 'overflow there as unspecified)',
+                 'evaluation of a debug build; a.. at MAX: the oracle is what std does in the same profile (overflow '
+                 'checks on); a release profile (both wrap around) is not exercised',
                  'char values are Unicode scalar values (a Rust type invariant)']}
